@@ -1,11 +1,15 @@
 use crate::common::{Args, Out};
 pub mod conn_enum;
 pub mod framing;
+pub mod head;
 pub mod headers;
 
 pub fn run(args: &Args, out: Out) {
     match args.driver.as_str() {
         "conn-enum" => conn_enum::run(args, out),
+        "head-gen" => head::run_gen(args, out),
+        "head-splits" => head::run_splits(args, out),
+        "head-tcp" => head::run_tcp(args, out),
         "headers-enum" => headers::run_enum(args, out),
         "ascii-ctors" => headers::run_ctors(args, out),
         "framing-gen" => framing::run_gen(args, out),
